@@ -2,6 +2,8 @@
 C11 — Encoding/decoding depends only on the frame: no state leaks. Property theorems only.
 -/
 import OAP.Model.World
+import OAP.Model.PoolHeader
+import OAP.Model.PoolGzip
 namespace OAP.C11
 open OAP OAP.Frame OAP.World
 
@@ -111,5 +113,87 @@ example : (step ⟨fun _ => .err "no-oracle", fun _ => none⟩
       (.unpackBytes 0 .v1 1 [0x03, 0x07, 0x00, 0x00, 0x00])).1
     = .decoded (.ok { type := .push, cmd := 7, codec := 1 }) := by
   rw [step_isolated]; decide
+
+end OAP.C11
+
+/-! ## concurrent use of the pooled headers and gzip objects (Pool view)
+
+`run_isolated` above is about HISTORIES: operations executed one after the other, each atomically. Here the operations
+of N goroutines are INTERLEAVED step by step (take from the pool / reset / field updates, writes, reads / put back or
+drop; a streaming decoder parks its header in its connection between two calls): model `OAP.Pool`, instances
+`PoolHeader.HB` (v1 / v2 `headerPool`), `PoolGzip.WB`, `PoolGzip.RB` (the two gzip pools). -/
+namespace OAP.C11
+open OAP OAP.Frame OAP.World OAP.Pool
+
+/-- the hypothesis the gzip instances ASSUME of compress/gzip's `Reset` is PROVED for the header pools, from the
+regenerated lists of reset statements (`every_field_reset`, `get_fresh`): after `headerPool.Get` nothing of the
+header's previous content is left, in both versions -/
+theorem header_reset_erases (v : Ver) : (PoolHeader.HB v).ResetErases ∧ ∀ stale, (PoolHeader.HB v).reset stale () = zero :=
+  ⟨PoolHeader.reset_erases v, PoolHeader.HB_reset v⟩
+
+/-- N goroutines encoding / decoding over the shared header pool, every interleaving, every initial pool content
+(arbitrary stale headers): (1) a call that has just taken its header holds the ZERO header; (2) a header being worked
+on, or PARKED in a connection by an incomplete streaming decode, contains exactly its owner's updates of the zero
+header; (3) so does the header a finished call ended with; (4) no two calls hold the same header, a held or parked
+header is not in the pool, the pool holds no header twice -/
+theorem header_concurrent_isolated (v : Ver) (pool : List Nat) (obj : Nat → Header) (next : Nat)
+    (h0 : InitOk pool next) (acts : List (Act Unit (Header → Header))) (s : St Header Unit (Header → Header) Header)
+    (h : Pool.run (PoolHeader.HB v) (Pool.init pool obj next) acts = some s) :
+    (∀ t o, s.pc t = .run o () [] → s.obj o = zero) ∧
+    (∀ t o fs, s.pc t = .run o () fs ∨ s.pc t = .parked o () fs → s.obj o = fs.foldl (fun h f => f h) zero) ∧
+    (∀ t fs out, s.pc t = .fin () fs out → out = fs.foldl (fun h f => f h) zero) ∧
+    (∀ t u o, t ≠ u → (s.pc t).holds = some o → (s.pc u).holds ≠ some o) ∧
+    (∀ t o, (s.pc t).holds = some o → o ∉ s.pool) ∧ s.pool.Nodup :=
+  PoolHeader.header_concurrent_isolated v pool obj next h0 acts s h
+
+/-- `concurrent_isolated`: no state leaks between CONCURRENT calls, through the pooled headers or the pooled gzip
+objects. For every interleaving and every initial content of the pool concerned:
+ * headers — the result expressions of the sequential world model (`World.step`: the pure function if the header
+   handed out is zero, a panic otherwise), evaluated on the header a concurrent Pack / UnpackBytes / Unpack call
+   has just taken, ARE the isolated results (`pack`, `unpackBytes`, `unpackRing` on the connection's own state);
+ * compressors — a finished `Compress(x)` returned `gz.compress x`;
+ * decompressors — a `Decompress(src)` that ran to its end returned `Gzip.decompress gz src`.
+Each is a function of the call's own arguments: not of the schedule, the other calls, or what the pool contained. -/
+theorem concurrent_isolated (gz : GzOracle) :
+    (∀ (v : Ver) (pool : List Nat) (obj : Nat → Header) (next : Nat), InitOk pool next →
+      ∀ (acts : List (Act Unit (Header → Header))) (s : St Header Unit (Header → Header) Header),
+      Pool.run (PoolHeader.HB v) (Pool.init pool obj next) acts = some s →
+      ∀ t o, s.pc t = .run o () [] →
+        (∀ p thr, (if s.obj o = zero then pack v gz p thr else .panic "pool returned a dirty header") = pack v gz p thr) ∧
+        (∀ codec bs, (if s.obj o = zero then unpackBytes v gz codec bs else .panic "pool returned a dirty header") =
+          unpackBytes v gz codec bs) ∧
+        (∀ codec pend rb, (if s.obj o = zero then unpackRing v gz codec pend rb
+            else ({ res := .panic "pool returned a dirty header", pend := none, rb := rb } : SOut)) =
+          unpackRing v gz codec pend rb)) ∧
+    (∀ (pool : List Nat) (obj : Nat → Bytes) (next : Nat), InitOk pool next →
+      ∀ (acts : List (Act Unit Bytes)) (s : St Bytes Unit Bytes (Res Bytes)),
+      Pool.run (PoolGzip.WB gz) (Pool.init pool obj next) acts = some s →
+      ∀ t x out, s.pc t = .fin () [x] out → out = gz.compress x) ∧
+    (∀ (pool : List Nat) (obj : Nat → PoolGzip.RState) (next : Nat), InitOk pool next →
+      ∀ (acts : List (Act Bytes Nat)) (s : St PoolGzip.RState Bytes Nat (Res Bytes)),
+      Pool.run (PoolGzip.RB gz) (Pool.init pool obj next) acts = some s →
+      ∀ t src ns out, s.pc t = .fin src ns out → PoolGzip.Done gz src ns → out = Gzip.decompress gz src) :=
+  ⟨fun v pool obj next h0 acts s h t o hp => PoolHeader.op_on_pooled_header gz v pool obj next h0 acts s h t o hp,
+   fun pool obj next h0 acts s h => (PoolGzip.compress_concurrent_eq_seq gz pool obj next h0 acts s h).1,
+   fun pool obj next h0 acts s h => (PoolGzip.decompress_concurrent_eq_seq gz pool obj next h0 acts s h).2.1⟩
+
+/-- the same as a statement about TWO runs: the same call (same input, same uses) finished in any two interleavings,
+among any other calls, over any two initial pools, has returned the same result — for every pooled object whose
+`Reset` erases -/
+theorem concurrent_schedule_independent {σ In U Out : Type} (B : Beh σ In U Out) (he : B.ResetErases)
+    (pool pool' : List Nat) (obj obj' : Nat → σ) (next next' : Nat) (h0 : InitOk pool next) (h0' : InitOk pool' next')
+    (acts acts' : List (Act In U)) (s s' : St σ In U Out)
+    (h : Pool.run B (Pool.init pool obj next) acts = some s) (h' : Pool.run B (Pool.init pool' obj' next') acts' = some s')
+    (t t' : Nat) (i : In) (us : List U) (out out' : Out)
+    (hf : s.pc t = .fin i us out) (hf' : s'.pc t' = .fin i us out') : out = out' :=
+  Pool.result_schedule_independent B he pool pool' obj obj' next next' h0 h0' acts acts' s s' h h' t t' i us out out' hf hf'
+
+/-- non-vacuity: the demo interleaving of `PoolHeader` — two dirty headers in the pool, a streaming decode that parks
+its header while a Pack and a one-shot decode run, a fourth call recycling a header the Pack left request id 7 in —
+is a run of both versions' instances, and every call ends with the zero header plus its own updates -/
+example : ∀ v : Ver,
+    (Pool.run (PoolHeader.HB v) PoolHeader.demoInit PoolHeader.demoActs).map (fun s => ((s.pc 0).out?, (s.pc 1).out?, (s.pc 3).out?)) =
+      some (some { type := 3, isUnpacked := true }, some { requestId := 7 }, some {}) := by
+  intro v; cases v <;> decide
 
 end OAP.C11
